@@ -513,7 +513,7 @@ func Supervise(o Options) int {
 	os.MkdirAll(replayDir, 0o755)
 	for _, v := range unknown {
 		seenSig[v.V.Sig]++
-		if seenSig[v.V.Sig] > 1 || len(seenSig) > 10 {
+		if seenSig[v.V.Sig] > 1 || len(seenSig) > 40 {
 			continue
 		}
 		rp := ReplayFile{Property: o.Prop, Tier: o.Tier, Seed: o.Seed, Index: v.Index, Sig: v.V.Sig, Msg: v.V.Msg, Case: v.V.Witness, Original: v.Case}
@@ -530,6 +530,21 @@ func Supervise(o Options) int {
 	}
 	if len(unknown) > 0 {
 		fmt.Printf("%d violating cases, %d distinct signatures\n", len(unknown), len(seenSig))
+		type sc struct {
+			s string
+			n int
+		}
+		var scs []sc
+		for s, n := range seenSig {
+			scs = append(scs, sc{s, n})
+		}
+		sort.Slice(scs, func(i, j int) bool { return scs[i].n > scs[j].n || (scs[i].n == scs[j].n && scs[i].s < scs[j].s) })
+		for i, x := range scs {
+			if i >= 60 {
+				break
+			}
+			fmt.Printf("  %6d  %s\n", x.n, x.s)
+		}
 	}
 
 	// Evidence
